@@ -3,6 +3,9 @@
 import json, sys
 pid = sys.argv[1]
 wt = sys.argv[2]
+# optional: names for the two mutations (default A B) and a note about earlier rounds (places to avoid)
+names = (sys.argv[3], sys.argv[4]) if len(sys.argv) > 4 else ('A', 'B')
+avoid = sys.argv[5] if len(sys.argv) > 5 else ''
 p = [json.loads(l) for l in open('/verif/properties.jsonl') if json.loads(l)['id'] == pid][0]
 print(f"""You are helping to evaluate how well a codebase's guarantees are protected against regressions. The codebase is libopus (xiph/opus, the reference C implementation of the Opus audio codec). Work ONLY inside the git worktree at {wt} (a full checkout of the repository). Do NOT read, list or modify anything under /verif or /repo, and do not look for other verification material on this machine: your work must be independent.
 
@@ -10,7 +13,7 @@ PROPERTY that users of libopus rely on ("{p['title']}"):
 {p['statement']}
 Scope of the property: {p['quantifier']['text']}
 
-YOUR TASK: produce TWO different, realistic source changes to libopus (files under celt/, silk/, src/ or include/), called mutation A and mutation B, each of which BREAKS this property, while
+YOUR TASK: produce TWO different, realistic source changes to libopus (files under celt/, silk/, src/ or include/), called mutation {names[0]} and mutation {names[1]}, each of which BREAKS this property, while
  (a) still compiling with the standard CMake build,
  (b) still passing the ENTIRE existing test suite (all 5 test programs), and
  (c) needing something specific in order to manifest: a particular input class, a multi-step sequence of calls, an unusual configuration, a boundary value, a particular interleaving, a fault at a particular point, or two cooperating sites that each look fine alone. NOT something that ordinary use (encode a normal signal, decode it) would expose at once, and not something that crashes everything.
@@ -22,10 +25,12 @@ HOW TO BUILD AND TEST (offline; no network):
   ctest --test-dir _build -j8 --timeout 900        # ~12-15 minutes, dominated by test_opus_encode; all tests must pass
 Internal headers are available with -I{wt}/include -I{wt}/celt -I{wt}/silk -I{wt}/src -I{wt} -I{wt}/_build -DHAVE_CONFIG_H, library at _build/libopus.a (link with -lm).
 
-DELIVERABLES, under {wt}/mutation/A/ and {wt}/mutation/B/ :
+{avoid}
+
+DELIVERABLES, under {wt}/mutation/{names[0]}/ and {wt}/mutation/{names[1]}/ :
   patch.diff     `git diff` of the library change only (must apply with `git apply` at the repository root of a clean checkout)
   demo.c         a small C program that demonstrates the breakage: exit status 0 on the UNMODIFIED tree, non-zero on the modified tree (print what it observed)
   build_demo.sh  builds demo.c against {wt}/_build/libopus.a  (usage: ./build_demo.sh ; produces ./demo next to it)
   NOTES.md       which clause of the property breaks, why the test suite does not notice, and exactly what is needed for it to manifest; paste the ctest summary line you observed with the patch applied
 You MUST actually verify, for each mutation: (1) ctest passes 100% with the patch applied; (2) demo exits non-zero with the patch and 0 without. If a candidate fails (1), pick another. Run the two test-suite runs one after the other, not concurrently.
-When done, leave the worktree with NO patch applied to tracked files (`git -C {wt} diff --stat` empty); only the untracked mutation/ directory and _build/ remain. Finish with a short report: for A and B, the file/function changed, what breaks, what is needed to trigger it.""")
+When done, leave the worktree with NO patch applied to tracked files (`git -C {wt} diff --stat` empty); only the untracked mutation/ directory and _build/ remain. Finish with a short report: for {names[0]} and {names[1]}, the file/function changed, what breaks, what is needed to trigger it.""")
